@@ -108,7 +108,7 @@ def _defassign(holder):
                     t = entry.type
                     facts["gen"].append({"line": int(node.pos[1]), "col": int(node.pos[2]), "name": str(node.name),
                                          "mn": bool(node.cf_maybe_null), "isn": bool(node.cf_is_null),
-                                         "allow_null": bool(node.allow_null), "ctx": self.ctx,
+                                         "allow_null": bool(node.allow_null), "ctx": self.ctx, "target": bool(getattr(node, "is_target", False)),
                                          "pyobject": bool(getattr(t, "is_pyobject", False))})
             except Exception as e:
                 facts["errors"].append(repr(e))
@@ -123,3 +123,46 @@ def _defassign(holder):
         return orig_impl(self, options, result)
 
     ModuleNode.ModuleNode.process_implementation = process_implementation
+
+
+@installer("c40_types")
+def _c40_types(holder):
+    """C40: the decisions of type inference.  For every scope that SimpleAssignmentTypeInferer
+    handles: the type every entry ended up with (C declaration + classification flags) and the
+    `might_overflow` mark that MarkOverflowingArithmetic put on the entry.  Keyed by the qualified
+    scope name; entries that are copies of an outer closure variable carry from_closure."""
+    from Cython.Compiler import TypeInference
+    facts = holder["facts"] = {"scopes": {}, "errors": []}
+    orig = TypeInference.SimpleAssignmentTypeInferer.infer_types
+
+    def infer_types(self, scope):
+        r = orig(self, scope)
+        try:
+            d = {}
+            for name, entry in scope.entries.items():
+                t = entry.type
+                try:
+                    decl = t.declaration_code("")
+                except Exception:
+                    decl = str(t)
+                d[str(name)] = {
+                    "ctype": decl.strip(), "tname": str(t),
+                    "pyobject": bool(getattr(t, "is_pyobject", False)),
+                    "builtin": str(getattr(t, "name", "")) if getattr(t, "is_builtin_type", False) else "",
+                    "is_int": bool(getattr(t, "is_int", False)),
+                    "is_float": bool(getattr(t, "is_float", False)),
+                    "is_bint": t is TypeInference.PyrexTypes.c_bint_type,
+                    "is_uchar": bool(getattr(t, "is_unicode_char", False)),
+                    "might_overflow": bool(entry.might_overflow),
+                    "in_closure": bool(entry.in_closure), "from_closure": bool(entry.from_closure),
+                    "is_arg": bool(getattr(entry, "is_arg", False)),
+                    "n_assignments": len(getattr(entry, "cf_assignments", ()) or ())}
+            key = str(getattr(scope, "qualified_name", None) or scope.name)
+            while key in facts["scopes"]:
+                key += "'"
+            facts["scopes"][key] = d
+        except Exception as e:      # never disturb the compilation
+            facts["errors"].append(repr(e))
+        return r
+
+    TypeInference.SimpleAssignmentTypeInferer.infer_types = infer_types
